@@ -1,0 +1,58 @@
+//go:build verif
+
+// Package verifhooks re-exports internals to the verification harness.
+package verifhooks
+
+import (
+	"github.com/go-git/go-git/v6/internal/revision"
+)
+
+// RevisionItem is a rendered revisioner chunk of internal/revision (C47).
+type RevisionItem struct {
+	Kind   string // ref tilde caret caretreg carettype atreflog atcheckout atupstream atpush atdate colonreg colonpath colonstagepath
+	Text   string
+	N      int
+	Negate bool
+}
+
+// ParseRevision runs internal/revision's parser on s.
+func ParseRevision(s string) ([]RevisionItem, error) {
+	items, err := revision.NewParserFromString(s).Parse()
+	if err != nil {
+		return nil, err
+	}
+	var out []RevisionItem
+	for _, it := range items {
+		switch v := it.(type) {
+		case revision.Ref:
+			out = append(out, RevisionItem{Kind: "ref", Text: string(v)})
+		case revision.TildePath:
+			out = append(out, RevisionItem{Kind: "tilde", N: v.Depth})
+		case revision.CaretPath:
+			out = append(out, RevisionItem{Kind: "caret", N: v.Depth})
+		case revision.CaretReg:
+			out = append(out, RevisionItem{Kind: "caretreg", Text: v.Regexp.String(), Negate: v.Negate})
+		case revision.CaretType:
+			out = append(out, RevisionItem{Kind: "carettype", Text: v.ObjectType})
+		case revision.AtReflog:
+			out = append(out, RevisionItem{Kind: "atreflog", N: v.Depth})
+		case revision.AtCheckout:
+			out = append(out, RevisionItem{Kind: "atcheckout", N: v.Depth})
+		case revision.AtUpstream:
+			out = append(out, RevisionItem{Kind: "atupstream"})
+		case revision.AtPush:
+			out = append(out, RevisionItem{Kind: "atpush"})
+		case revision.AtDate:
+			out = append(out, RevisionItem{Kind: "atdate", Text: v.Date.UTC().String()})
+		case revision.ColonReg:
+			out = append(out, RevisionItem{Kind: "colonreg", Text: v.Regexp.String(), Negate: v.Negate})
+		case revision.ColonPath:
+			out = append(out, RevisionItem{Kind: "colonpath", Text: v.Path})
+		case revision.ColonStagePath:
+			out = append(out, RevisionItem{Kind: "colonstagepath", Text: v.Path, N: v.Stage})
+		default:
+			out = append(out, RevisionItem{Kind: "unknown"})
+		}
+	}
+	return out, nil
+}
